@@ -49,6 +49,7 @@ type world struct {
 	dt     string
 	ts     []*tensor.Dense
 	allocs []alloc
+	dead   map[int]bool  // tensors handed back with ReturnTensor: never touched or observed again
 	eng    tensor.Engine // proge: engine given to every tensor created by new (nil = default)
 	keep   bool    // progk: retain the axes slices passed to T and report them after every step
 	kept   [][]int
@@ -144,6 +145,10 @@ func (w *world) obsAll() string {
 	var sb strings.Builder
 	for i, t := range w.ts {
 		sb.WriteString(" ")
+		if w.dead[i] {
+			sb.WriteString(fmt.Sprintf("T%d[_|dead]", i))
+			continue
+		}
 		sb.WriteString(w.obsTensor(i, t))
 	}
 	for i, s := range w.kept {
@@ -203,6 +208,14 @@ func (w *world) step(op string) (status string) {
 		}
 		w.ts = append(w.ts, v.(*tensor.Dense))
 		return fmt.Sprintf("new:%d", len(w.ts)-1)
+	case "ret":
+		// ret:<t> : tensor.ReturnTensor — the tensor is dead afterwards
+		tensor.ReturnTensor(T(1))
+		if w.dead == nil {
+			w.dead = map[int]bool{}
+		}
+		w.dead[atoi(f[1])] = true
+		return "ok"
 	case "narrow":
 		// narrow:<t>:<dim>:<start>:<len>:<api|method> — tensor.Narrow / Dense.Narrow
 		var v tensor.View
@@ -261,7 +274,7 @@ func (w *world) step(op string) (status string) {
 		src := T(1)
 		m := src.Materialize().(*tensor.Dense)
 		for i, t := range w.ts {
-			if t == m {
+			if t == m && !w.dead[i] {
 				return fmt.Sprintf("new:%d", i)
 			}
 		}
@@ -283,7 +296,11 @@ func (w *world) step(op string) (status string) {
 				r = rt.(*tensor.Dense)
 			}
 		} else {
-			r, err = T(1).SafeT(ints(f[2])...)
+			axes := ints(f[2])
+			if w.keep && len(axes) > 0 {
+				w.kept = append(w.kept, axes)
+			}
+			r, err = T(1).SafeT(axes...)
 		}
 		if err != nil {
 			return "err"
@@ -315,7 +332,7 @@ func (w *world) step(op string) (status string) {
 
 func (w *world) newOrSame(r *tensor.Dense) string {
 	for i, t := range w.ts {
-		if t == r {
+		if t == r && !w.dead[i] { // a recycled struct may reappear at the address of a dead tensor
 			return fmt.Sprintf("new:%d", i)
 		}
 	}
